@@ -75,6 +75,8 @@ class C05(C.PipelineCheck):
             rep = ['opt', 'vec', 'hmap-v', 'tup2-1', 'result']
             chains = [()] + [(a,) for a in ctxs] + [(a, b) for a in rep for b in ctxs] + [(a, 'opt') for a in ctxs if a not in rep] + \
                      [(a, 'ref') for a in ctxs if a not in rep]
+            # two Options separated by a composite: text-level shortcuts ("already nullable") show up only at this depth
+            chains += [('opt', b, 'opt') for b in ('tup2-1', 'tup2-0', 'hmap-v', 'vec', 'result')]
         else:
             chains = [()] + [(a,) for a in ctxs] + [(a, b) for a in ctxs for b in ctxs]
         if not q:
